@@ -208,7 +208,7 @@ pub fn corpus(tier: Tier, deep: usize) -> Vec<Prog> {
 			nnames: 2,
 			dup_last: 0,
 			mask_after: None,
-			layers: (0..2).map(|li| LayerD { kinds: vec![kinds[c[li * 2]], kinds[c[li * 2 + 1]]], assert_kind: 0, ext: false, mask_before: None }).collect(),
+			layers: (0..2).map(|li| LayerD { kinds: vec![kinds[c[li * 2]], kinds[c[li * 2 + 1]]], assert_kind: 0, ext: false, mask_before: None, mask_self: None }).collect(),
 		};
 		let o = print(&build(&chain));
 		out.push(Prog { family: "chain", code: format!("local o = {o}; [std.objectFieldsAll(o), o]"), tla: None });
